@@ -2,7 +2,7 @@
 //! but each recognised term skeleton is built with concrete (non-erased) adaptor types over
 //! `&mut Tensor` / `&mut Matrix` leaves, so the generic code is exercised in the monomorphisations
 //! a user of the crate gets.  `(2 2 term probes writes)`; the model treats it exactly like op 1.
-use super::build::{e_access, e_shape, e_strict, index_range, params, Params};
+use super::build::{e_access, e_shape, e_strict, index_range, params, Params, E};
 use super::observe;
 use crate::guarded;
 use crate::sx::*;
@@ -38,7 +38,7 @@ impl Drop for Leaves {
 
 type R<T> = Result<T, Sx>;
 
-fn leaf<const D: usize>(ls: &mut Leaves, t: &Sx) -> R<&'static mut Tensor<i64, D>> {
+fn leaf<const D: usize>(ls: &mut Leaves, t: &Sx) -> R<&'static mut Tensor<E, D>> {
     let v = t.list().ok_or_else(bad_case)?;
     if v.len() != 3 || v[0].i64() != Some(0) {
         return Err(bad_case());
@@ -50,19 +50,19 @@ fn leaf<const D: usize>(ls: &mut Leaves, t: &Sx) -> R<&'static mut Tensor<i64, D
     }
     let shape: [(&'static str, usize); D] = shape_arr(&shape);
     let elements = shape.iter().try_fold(1usize, |a, x| a.checked_mul(x.1)).filter(|e| *e <= 100_000).ok_or_else(bad_case)?;
-    let data: Vec<i64> = (0..elements as i64).map(|k| id * 1000 + k).collect();
+    let data: Vec<E> = (0..elements as i64).map(|k| (id * 1000 + k, 0usize)).collect();
     match Tensor::try_from(shape, data) {
         Err(e) => Err(err(e_shape(&e))),
         Ok(t) => {
             let p = Box::into_raw(Box::new(t));
-            ls.dumps.push(Box::new(move || l(unsafe { &*p }.iter().map(z).collect())));
+            ls.dumps.push(Box::new(move || l(unsafe { &*p }.iter().map(|x| z(x.0)).collect())));
             ls.frees.push(Box::new(move || drop(unsafe { Box::from_raw(p) })));
             Ok(unsafe { &mut *p })
         }
     }
 }
 
-fn matrix_leaf(ls: &mut Leaves, t: &Sx) -> R<TensorRefMatrix<i64, &'static mut Matrix<i64>, [&'static str; 2]>> {
+fn matrix_leaf(ls: &mut Leaves, t: &Sx) -> R<TensorRefMatrix<E, &'static mut Matrix<E>, [&'static str; 2]>> {
     let v = t.list().ok_or_else(bad_case)?;
     if v.len() != 6 || v[0].i64() != Some(12) {
         return Err(bad_case());
@@ -70,10 +70,10 @@ fn matrix_leaf(ls: &mut Leaves, t: &Sx) -> R<TensorRefMatrix<i64, &'static mut M
     let id = v[1].i64().ok_or_else(bad_case)?;
     let n: Vec<usize> = v[2..6].iter().map(|x| x.usize()).collect::<Option<_>>().ok_or_else(bad_case)?;
     let elements = n[0].checked_mul(n[1]).filter(|e| *e <= 100_000).ok_or_else(bad_case)?;
-    let data: Vec<i64> = (0..elements as i64).map(|k| id * 1000 + k).collect();
+    let data: Vec<E> = (0..elements as i64).map(|k| (id * 1000 + k, 0usize)).collect();
     let m = guarded(|| Matrix::from_flat_row_major((n[0], n[1]), data)).ok_or_else(panicked)?;
     let p = Box::into_raw(Box::new(m));
-    ls.dumps.push(Box::new(move || l(unsafe { &*p }.row_major_iter().map(z).collect())));
+    ls.dumps.push(Box::new(move || l(unsafe { &*p }.row_major_iter().map(|x| z(x.0)).collect())));
     ls.frees.push(Box::new(move || drop(unsafe { Box::from_raw(p) })));
     TensorRefMatrix::with_names(unsafe { &mut *p }, [dim(n[2]), dim(n[3])]).map_err(|e| err(e_shape(&e)))
 }
@@ -87,7 +87,7 @@ fn all_params<const D: usize>(p: &Sx) -> R<(bool, [Option<IndexRange>; D])> {
     }
 }
 
-fn s_range<S: TensorMut<i64, D>, const D: usize>(src: S, p: &Sx) -> R<TensorRange<i64, S, D>> {
+fn s_range<S: TensorMut<E, D>, const D: usize>(src: S, p: &Sx) -> R<TensorRange<E, S, D>> {
     let (strict, arr) = all_params::<D>(p)?;
     if strict {
         guarded(|| TensorRange::from_all_strict(src, arr)).ok_or_else(panicked)?.map_err(|e| err(e_strict(&e)))
@@ -95,7 +95,7 @@ fn s_range<S: TensorMut<i64, D>, const D: usize>(src: S, p: &Sx) -> R<TensorRang
         guarded(|| TensorRange::from_all(src, arr)).ok_or_else(panicked)?.map_err(|e| err(e_shape(&e)))
     }
 }
-fn s_mask<S: TensorMut<i64, D>, const D: usize>(src: S, p: &Sx) -> R<TensorMask<i64, S, D>> {
+fn s_mask<S: TensorMut<E, D>, const D: usize>(src: S, p: &Sx) -> R<TensorMask<E, S, D>> {
     let (strict, arr) = all_params::<D>(p)?;
     if strict {
         guarded(|| TensorMask::from_all_strict(src, arr)).ok_or_else(panicked)?.map_err(|e| err(e_strict(&e)))
@@ -110,19 +110,19 @@ fn names<const D: usize>(s: &Sx) -> R<[&'static str; D]> {
     }
     Ok(names_arr(&v))
 }
-fn s_reverse<S: TensorMut<i64, D>, const D: usize>(src: S, ns: &Sx) -> R<TensorReverse<i64, S, D>> {
+fn s_reverse<S: TensorMut<E, D>, const D: usize>(src: S, ns: &Sx) -> R<TensorReverse<E, S, D>> {
     let v: Vec<&'static str> = ns.usizes().ok_or_else(bad_case)?.iter().map(|n| dim(*n)).collect();
     guarded(|| TensorReverse::from(src, &v)).ok_or_else(panicked)
 }
-fn s_rename<S: TensorMut<i64, D>, const D: usize>(src: S, ns: &Sx) -> R<TensorRename<i64, S, D>> {
+fn s_rename<S: TensorMut<E, D>, const D: usize>(src: S, ns: &Sx) -> R<TensorRename<E, S, D>> {
     let ns = names::<D>(ns)?;
     guarded(|| TensorRename::from(src, ns)).ok_or_else(panicked)
 }
-fn s_access<S: TensorMut<i64, D>, const D: usize>(src: S, ns: &Sx) -> R<TensorAccess<i64, S, D>> {
+fn s_access<S: TensorMut<E, D>, const D: usize>(src: S, ns: &Sx) -> R<TensorAccess<E, S, D>> {
     let ns = names::<D>(ns)?;
     TensorAccess::try_from(src, ns).map_err(|e| err(e_access(&e)))
 }
-fn s_transpose<S: TensorMut<i64, D>, const D: usize>(src: S, ns: &Sx) -> R<TensorTranspose<i64, S, D>> {
+fn s_transpose<S: TensorMut<E, D>, const D: usize>(src: S, ns: &Sx) -> R<TensorTranspose<E, S, D>> {
     let ns = names::<D>(ns)?;
     TensorTranspose::try_from(src, ns).map_err(|e| err(e_access(&e)))
 }
@@ -143,7 +143,7 @@ fn skeleton(t: &Sx) -> Option<String> {
     })
 }
 
-fn finish<S: TensorMut<i64, D>, const D: usize>(
+fn finish<S: TensorMut<E, D>, const D: usize>(
     view: S,
     ls: &Leaves,
     probes: &[Vec<usize>],
@@ -191,7 +191,7 @@ pub fn execute(term: &Sx, probes: &[Vec<usize>], writes: &[(Vec<usize>, i64)], f
             go!({
                 let (a, b) = b?;
                 let along = dim(at(term, &[1, 1, 2]).usize().ok_or_else(bad_case)?);
-                let chain = guarded(|| TensorChain::<i64, (_, _), 2>::from((a, b), along)).ok_or_else(panicked)?;
+                let chain = guarded(|| TensorChain::<E, (_, _), 2>::from((a, b), along)).ok_or_else(panicked)?;
                 let mask = s_mask(chain, &at(term, &[1, 2]))?;
                 s_reverse(mask, &at(term, &[2]))
             })
@@ -214,8 +214,8 @@ pub fn execute(term: &Sx, probes: &[Vec<usize>], writes: &[(Vec<usize>, i64)], f
                     return Err(bad_case());
                 }
                 let a = a?;
-                let ex = guarded(|| TensorExpansion::<i64, _, 2, 1>::from(a, [(es[0].0, dim(es[0].1))])).ok_or_else(panicked)?;
-                guarded(|| TensorIndex::<i64, _, 3, 1>::from(ex, [(dim(ps[0].0), ps[0].1)])).ok_or_else(panicked)
+                let ex = guarded(|| TensorExpansion::<E, _, 2, 1>::from(a, [(es[0].0, dim(es[0].1))])).ok_or_else(panicked)?;
+                guarded(|| TensorIndex::<E, _, 3, 1>::from(ex, [(dim(ps[0].0), ps[0].1)])).ok_or_else(panicked)
             })
         }
         // transposition of a reordering (the class of finding F13)
@@ -235,7 +235,7 @@ pub fn execute(term: &Sx, probes: &[Vec<usize>], writes: &[(Vec<usize>, i64)], f
                 let rb = s_rename(b, &at(term, &[1, 1, 2]))?;
                 let pos = at(term, &[2]).usize().ok_or_else(bad_case)?;
                 let name = dim(at(term, &[3]).usize().ok_or_else(bad_case)?);
-                guarded(|| TensorStack::<i64, (_, _), 1>::from((ra, rb), (pos, name))).ok_or_else(panicked)
+                guarded(|| TensorStack::<E, (_, _), 1>::from((ra, rb), (pos, name))).ok_or_else(panicked)
             })
         }
         // mask over a matrix-backed source
@@ -257,7 +257,7 @@ pub fn execute(term: &Sx, probes: &[Vec<usize>], writes: &[(Vec<usize>, i64)], f
                     return Err(bad_case());
                 }
                 let a = a?;
-                let sel = guarded(|| TensorIndex::<i64, _, 3, 1>::from(a, [(dim(ps[0].0), ps[0].1)])).ok_or_else(panicked)?;
+                let sel = guarded(|| TensorIndex::<E, _, 3, 1>::from(a, [(dim(ps[0].0), ps[0].1)])).ok_or_else(panicked)?;
                 s_access(sel, &at(term, &[2]))
             })
         }
